@@ -45,6 +45,84 @@ ASSUMPTIONS = ["theorems are about the modelled fragment (Latex.wf_expr): "
 FINDING_D = "C18:kind:symbolic-denominator-D"
 
 
+FINDING_NAMES = "C18:same-name-indices"
+
+
+def name_collisions(E):
+    """printed names shared by distinct Index objects of the expression"""
+    Index = sys.modules["adcgen.indices"].Index
+    seen = {}
+    for i in S(E.sympy).atoms(Index):
+        seen.setdefault((i.name, i.spin), set()).add(i)
+    return sorted(f"{n}_{sp}" if sp else n
+                  for (n, sp), v in seen.items() if len(v) > 1)
+
+
+ROOT_TARGETS = {"t2_1": "ijab", "t1_2": "ia", "t2_2": "ijab",
+                "M0_ph_ph": "iajb", "M1_ph_ph": "iajb", "M2_ph_ph": "iajb",
+                "M1_ph_pphh": "iajkbc", "E0": "", "E1": "", "E2": "", "E3": ""}
+
+
+def targets_of(E, label=""):
+    root = label.split(":")[0]
+    if root in ROOT_TARGETS and "spatial" not in label:
+        return get_symbols(ROOT_TARGETS[root])
+    tg = E.provided_target_idx
+    if tg is None:
+        try:
+            tg = E.terms[0].target
+        except Exception:
+            tg = ()
+    return tg
+
+
+def clause_problems(E, R, s):
+    out = []
+    if str(R) != s:
+        out.append("re-printed text differs")
+    if U.kinds_of(E) != U.kinds_of(R):
+        out.append("tensor classes / bra-ket symmetries differ")
+    return out
+
+
+def repair_D(e):
+    """the imported expression with AntiSymmetricTensor D replaced by the
+    SymmetricTensor the library uses (what the proposed patch does)"""
+    name = tensor_names.sym_orb_denom
+    sub = {}
+    for t in S(e).atoms(AntiSymmetricTensor):
+        if t.name == name and type(t) is AntiSymmetricTensor:
+            sub[t] = SymmetricTensor(name, t.upper, t.lower, t.bra_ket_sym)
+    return S(e).xreplace(sub) if sub else S(e)
+
+
+
+CONFIGS = {
+    "A": {"eri": "W", "coulomb": "w", "fock": "g", "operator": "u",
+          "gs_amplitude": "am", "gs_density": "rho",
+          "left_adc_amplitude": "L", "right_adc_amplitude": "R",
+          "orb_energy": "eps", "sym_orb_denom": "Dn"},
+    # default names re-used for other roles
+    "B": {"eri": "v", "coulomb": "V", "gs_amplitude": "X",
+          "left_adc_amplitude": "t", "right_adc_amplitude": "p",
+          "gs_density": "Y"},
+}
+
+
+class override_names:
+    def __init__(self, over):
+        self.over = over
+
+    def __enter__(self):
+        self.old = {k: getattr(tensor_names, k) for k in self.over}
+        for k, v in self.over.items():
+            object.__setattr__(tensor_names, k, v)
+
+    def __exit__(self, *a):
+        for k, v in self.old.items():
+            object.__setattr__(tensor_names, k, v)
+
+
 def importer():
     return sys.modules["adcgen.func"].import_from_sympy_latex
 
@@ -73,9 +151,11 @@ def derivation_exprs(ctx, quick):
             tg, spins = spatial
             for restricted in (False, True):
                 try:
+                    src = E.copy().expand()
+                    if tg:      # denominators defeat the Einstein convention
+                        src.set_target_idx(tg)
                     sp = adcgen.transform_to_spatial_orbitals(
-                        E.copy().expand(), tg, spins[restricted],
-                        restricted=restricted)
+                        src, tg, spins[restricted], restricted=restricted)
                     out.append((f"{label}:spatial{int(restricted)}", sp))
                     out.append((f"{label}:spatial{int(restricted)}:symden",
                                 sp.copy().use_symbolic_denominators()))
@@ -133,7 +213,7 @@ def rnd_indices(rng, n, spin=None):
     return out
 
 
-def rnd_tensor(rng):
+def rnd_tensor(rng, lib_only=True):
     tn = tensor_names
     spin = rng.choice([None, None, "", "a"])
     k = rng.random()
@@ -154,7 +234,10 @@ def rnd_tensor(rng):
         idx = rnd_indices(rng, nu + nl, spin)
         return AntiSymmetricTensor(name, idx[:nu], idx[nu:])
     if k < 0.6:      # symmetric: Coulomb, D, others
-        name = rng.choice([tn.coulomb, tn.coulomb, tn.sym_orb_denom, "B"])
+        # the library itself creates SymmetricTensors only for the Coulomb
+        # integrals and the symbolic denominators
+        name = rng.choice([tn.coulomb, tn.coulomb, tn.sym_orb_denom] +
+                          ([] if lib_only else ["B"]))
         nu = rng.randint(1, 2)
         idx = rnd_indices(rng, 2 * nu, spin)
         bks = -1 if name == tn.sym_orb_denom else 0
@@ -196,12 +279,12 @@ def rnd_denominator(rng):
     return d
 
 
-def rnd_expr(rng):
+def rnd_expr(rng, lib_only=True):
     terms = []
     for _ in range(rng.choice([1, 1, 2, 2, 3, 4])):
         t = rnd_coef(rng)
         for _ in range(rng.randint(1, 4)):
-            o = rnd_tensor(rng)
+            o = rnd_tensor(rng, lib_only)
             if rng.random() < 0.08 and not isinstance(o, (F, Fd)):
                 o = o ** rng.randint(2, 3)
             t *= o
@@ -212,7 +295,7 @@ def rnd_expr(rng):
             ops = [rng.choice([F, Fd])(i) for i in rnd_indices(rng, rng.randint(1, 4))]
             t *= NO(Mul(*ops))
         elif r < 0.37:
-            a, b = rnd_tensor(rng), rnd_tensor(rng)
+            a, b = rnd_tensor(rng, lib_only), rnd_tensor(rng, lib_only)
             if not isinstance(a, (F, Fd)) and not isinstance(b, (F, Fd)):
                 t *= (a + rnd_coef(rng) * b) ** rng.choice([1, 2])
         terms.append(t)
@@ -223,7 +306,7 @@ def generated_exprs(ctx, n, expanded=True, tag="gen"):
     rng = ctx.rng
     out = []
     for k in range(n):
-        e = rnd_expr(rng)
+        e = rnd_expr(rng, lib_only=expanded)
         if expanded:
             e = e.expand()
         E = Expr(e)
@@ -276,7 +359,7 @@ def fixed_exprs():
         V * t + V / (e(a) - e(i)), V / (e(a) - 2 * e(i)),
         V / (2 * e(a) - 2 * e(i)), V / (-4 * e(a) + 4 * e(i)),
         NonSymmetricTensor("n", (i, a, i3)),
-        SymmetricTensor(tn.coulomb, (i, a), (j, b), 1),
+        SymmetricTensor(tn.coulomb, (i, a), (j, b)),
         AntiSymmetricTensor(tn.fock, (ia,), (jb,)),
         Amplitude(tn.left_adc_amplitude, (a,), (i,)),
         Amplitude(tn.right_adc_amplitude, (a, b), (i, j)),
@@ -288,7 +371,7 @@ def fixed_exprs():
         Amplitude(tn.gs_amplitude + "1", (aa, bb), (ia, jb)),
         AntiSymmetricTensor(tn.operator, (p,), (q,)) * Fd(p) * F(q),
         SymmetricTensor(tn.sym_orb_denom, (ia,), (aa,), -1) *
-        AntiSymmetricTensor(tn.fock, (ia,), (aa,), 1),
+        AntiSymmetricTensor(tn.fock, (ia,), (aa,)),
     ]
     out = []
     for n, s in enumerate(es):
@@ -382,10 +465,9 @@ def run(ctx):
         if s in seen:
             continue
         seen.add(s)
-        strict = not label.startswith("raw")
-        if strict and label.startswith(("fixed", "gen")):
-            # the property is about expanded expressions
-            strict = (S(E.sympy).expand() == E.sympy)
+        # the property is about expanded expressions
+        strict = (not label.startswith("raw")
+                  and S(E.sympy).expand() == E.sympy)
         cases.append({"label": label, "E": E, "s": s, "strict": strict})
     ctx.extra["campaign_strings"] = len(cases)
     ctx.extra["campaign_strings_expanded"] = sum(c["strict"] for c in cases)
@@ -395,10 +477,12 @@ def run(ctx):
     for c in cases:
         E, s = c["E"], c["s"]
         c["imp"] = py_import(s)
+        c["collide"] = name_collisions(E)
+        if c["imp"][0] == "ok":
+            R = Expr(c["imp"][1], **E.assumptions)
+            c["R"] = R
+            c["kinds_ok"] = U.kinds_of(E) == U.kinds_of(R)
         if not c["strict"]:
-            if c["imp"][0] == "ok":
-                R = Expr(c["imp"][1], **E.assumptions)
-                c["kinds_ok"] = U.kinds_of(E) == U.kinds_of(R)
             continue
         if c["imp"][0] != "ok":
             ctx.obligation(f"import of printed text {c['label']}", False,
@@ -408,44 +492,54 @@ def run(ctx):
                           "the printed text of an expression",
                           {"label": c["label"], "text": s}, True)
             continue
-        R = Expr(c["imp"][1], **E.assumptions)
-        c["R"] = R
-        s2 = str(R)
-        same_text = ctx.obligation(f"re-printed text {c['label']}", s2 == s)
-        if not same_text:
-            ctx.violation(f"C18:reprint:{c['label']}",
-                          "printing the imported expression gives another text",
-                          {"label": c["label"], "text": s, "reprinted": s2},
-                          True)
+        problems = clause_problems(E, R, s)
+        ctx.obligation(f"round trip in the implementation {c['label']}",
+                       not problems, "; ".join(problems))
+        if not problems:
+            if not (R.sympy == E.sympy or
+                    S(R.sympy - E.sympy).expand() == 0):
+                pairs.append((c, EQ.Pair(E, R, targets_of(E, c["label"]), c["label"])))
+            continue
         k1, k2 = U.kinds_of(E), U.kinds_of(R)
-        c["kinds_ok"] = (k1 == k2)
-        c["value_ok"] = (R.sympy == E.sympy or
-                         S(R.sympy - E.sympy).expand() == 0)
-        if not c["kinds_ok"]:
-            diff = sorted(set(k2) - set(k1))
-            only_d = all(d[1] == tensor_names.sym_orb_denom for d in diff)
-            ctx.obligation(f"tensor kinds {c['label']}", False,
-                           f"{sorted(set(k1) - set(k2))} -> {diff}")
-            key = FINDING_D if only_d else f"C18:kind:{c['label']}"
+        rep = {"label": c["label"], "text": s, "reprinted": str(R),
+               "problems": problems,
+               "original classes": [d[:3] for d in sorted(set(k1) - set(k2))],
+               "imported classes": [d[:3] for d in sorted(set(k2) - set(k1))],
+               "difference imported-original":
+                   str(S(R.sympy - E.sympy))[:500]}
+        if c["collide"]:
+            # distinct Index objects with the same printed name: the text is
+            # ambiguous, the importer identifies them
+            root = c["label"].split(":")[0]
+            rep["same-name indices"] = c["collide"]
+            found = True
+            try:
+                pr = EQ.Pair(E, R, targets_of(E, c["label"]), c["label"])
+                EQ.run_pairs(ctx, "collide", [pr], search=True)
+                rep["value check"] = {"check_equiv": pr.ok,
+                                      "difference": pr.diff, "err": pr.err}
+                found = pr.ok is False
+            except Exception as ex:
+                rep["value check"] = repr(ex)
+            ctx.violation(f"{FINDING_NAMES}:{root}",
+                          "the expression holds distinct indices that print "
+                          "with the same name; print + import identifies "
+                          "them (other value, other text)", rep, found)
+            continue
+        # is the wrong class of the symbolic denominator the only cause?
+        R2 = Expr(repair_D(R.sympy), **E.assumptions)
+        if problems and not clause_problems(E, R2, s) and \
+                repair_D(R.sympy) != R.sympy:
             ctx.violation(
-                key, "imported expression has other tensor classes than the "
-                "printed one" + (" (symbolic denominator D: SymmetricTensor "
-                                 "-> AntiSymmetricTensor)" if only_d else ""),
-                {"label": c["label"], "text": s,
-                 "original": [d[:3] for d in sorted(set(k1) - set(k2))],
-                 "imported": [d[:3] for d in diff],
-                 "difference imported-original": str(S(R.sympy - E.sympy))[:500]},
-                True)
-        else:
-            ctx.obligation(f"tensor kinds {c['label']}", True)
-            if not c["value_ok"]:
-                tg = E.provided_target_idx
-                if tg is None:
-                    try:
-                        tg = E.terms[0].target
-                    except Exception:
-                        tg = ()
-                pairs.append((c, EQ.Pair(E, R, tg, c["label"])))
+                FINDING_D, "the symbolic denominator D (a SymmetricTensor) is "
+                "imported as AntiSymmetricTensor: other tensor class, "
+                "imported - original != 0" +
+                (", other re-printed text" if str(R) != s else ""), rep, True)
+            continue
+        kind = "reprint" if str(R) != s else "kind"
+        ctx.violation(f"C18:{kind}:{c['label']}",
+                      "print + import + same assumptions does not restore "
+                      "the expression: " + "; ".join(problems), rep, True)
 
     # same classes but not syntactically equal: value via the verified validator
     if pairs:
@@ -528,6 +622,53 @@ def run(ctx):
                 False)
     ctx.extra["import_cases"] = dist_m
 
+    # 2b. other configured tensor names (tensor_names is a frozen singleton
+    # read from tensor_names.json at import; its fields are overridden for the
+    # duration of these calls only, /repo is not touched)
+    extra = ["{t^{a}_{i}} {tcc^{a}_{i}} {t2^{ab}_{ij}} {t12cc^{ab}_{ij}} "
+             "{tc1c^{a}_{i}} {tx^{a}_{i}} {t1x^{a}_{i}}",
+             "{p^{a}_{i}} {p2^{a}_{i}} {pc^{a}_{i}} {p2c^{a}_{i}} {V^{ij}_{ab}} "
+             "{v^{ia}_{jb}} {f^{i}_{j}} {d^{i}_{a}} {X^{a}_{i}} {Y^{a}_{i}} "
+             "{e_{a}} {D^{i}_{a}}",
+             "{am^{a}_{i}} {am1^{a}_{i}} {amcc^{a}_{i}} {a1^{a}_{i}} "
+             "{rho^{a}_{i}} {L^{a}_{i}} {R^{a}_{i}} {W^{ij}_{ab}} {w^{ia}_{jb}}"]
+    sample = [x for x in strings if rng.random() < 0.35][:150] + extra
+    for tag, over in CONFIGS.items():
+        cfg2 = dict(cfg)
+        cfg2.update(over)
+        d2 = f"Definition cfg := {U.coq_names(cfg2)}.\n"
+        cc = [(x, cv) for x in sample for cv in (False, True)]
+        vals2, errs2 = ctx.coq_eval(
+            f"names_{tag}", [f"show_result (import_model cfg "
+                             f"{'true' if cv else 'false'} {U.coq_str(x)})"
+                             for x, cv in cc], header=U.COQ_HEADER, defs=d2,
+            shard=120)
+        with override_names(over):
+            for (x, cv), v in zip(cc, vals2):
+                if v is None:
+                    ctx.obligation(f"coq evaluation names {tag}", False,
+                                   "; ".join(errs2)[:300])
+                    continue
+                tree = U.parse_result(v)
+                py = py_import(x, cv)
+                if tree is None:
+                    ok = py[0] == "raise"
+                    detail = f"model raises, implementation {py!r}"[:400]
+                else:
+                    b = py_build(tree)
+                    ok = (b[0] == py[0]) and b[1] == py[1]
+                    detail = f"model {b!r} vs implementation {py!r}"[:600]
+                ctx.case(key=("names", tag, x, cv), nontrivial=True,
+                         kind=f"import:names-{tag}")
+                if not ctx.obligation(f"importer = model [names {tag}, "
+                                      f"convert={cv}] {x[:50]!r}", ok, detail):
+                    ctx.violation(
+                        f"C18:model-import:names-{tag}:{cv}:{x[:70]}",
+                        "Gallina importer and import_from_sympy_latex disagree "
+                        "under other configured tensor names",
+                        {"text": x, "convert_default_names": cv,
+                         "tensor_names": cfg2, "detail": detail}, False)
+
     # 3. printer direction and the round trip inside the model
     inside, outside, why = [], 0, {}
     for c in cases:
@@ -560,6 +701,7 @@ def run(ctx):
     vals, errs = ctx.coq_eval("print", pcases, header=U.COQ_HEADER, defs=pdefs,
                               shard=160)
     n_wf = 0
+    not_wf = []
     for n, c in enumerate(inside):
         pv, rv, kv, wv = vals[4 * n:4 * n + 4]
         if pv is None:
@@ -574,6 +716,8 @@ def run(ctx):
                           "Gallina printer and str(expr) disagree",
                           {"text": c["s"], "model": U.unquote(pv)}, False)
         n_wf += wv == "true"
+        if wv != "true":
+            not_wf.append(c["label"] + ": " + c["s"][:120])
         if wv == "true":
             # inside the hypotheses of the theorem: the round trip must compute
             if not ctx.obligation(f"model round trip {c['label']}",
@@ -599,6 +743,7 @@ def run(ctx):
                  sample=None, kind="print:" + c["label"].split(":")[0].rstrip(
                      "0123456789"))
     ctx.extra["strings_satisfying_wf_expr"] = n_wf
+    ctx.extra["in_fragment_not_wf_expr"] = not_wf[:20]
     ctx.note(f"{len(inside)} of {len(cases)} campaign strings are inside the "
              f"modelled layout fragment, {n_wf} satisfy the hypotheses "
              f"(wf_expr) of the round-trip theorem; outside: {why}")
